@@ -254,7 +254,12 @@ Definition ref_up (G:list srev) (cur:list str) (i:ident) : expect :=
                     if r_consistent G cur then
                       match r_branch_tips G b cur with
                       | [] => walk_up_from G (Some None) (i_lbl i) (Z.abs_nat z) None
-                      | [c] => walk_up_from G (Some (Some c)) (i_lbl i) (Z.abs_nat z) None
+                      | [c] =>
+                          (* the branch is reached only through ancestors / dependencies of the current revisions: the
+                             code may refuse this as ambiguous (it looks at direct parents only, e.g. lab0 on b; x<-b;
+                             y<-b depends z; z depends x; y2<-y; current w depends y: "Ambiguous upgrade") *)
+                          if existsb (r_lineage G b) cur then walk_up_from G (Some (Some c)) (i_lbl i) (Z.abs_nat z) None
+                          else weaken (walk_up_from G (Some (Some c)) (i_lbl i) (Z.abs_nat z) None)
                       | c :: cs =>
                           let r := walk_up_from G (Some (Some c)) (i_lbl i) (Z.abs_nat z) None in
                           if forallb (fun c' => expect_eqb (walk_up_from G (Some (Some c')) (i_lbl i) (Z.abs_nat z) None) r) cs
@@ -509,3 +514,28 @@ Inductive up_chain (G:list srev) (f:str -> Prop) : nat -> str -> str -> Prop :=
 | uc_0 x : up_chain G f 0 x x
 | uc_S n x c y : In x (down_of G c) -> f c -> (forall c', In x (down_of G c') -> In c' (ids G) -> f c' -> c' = c) ->
                  up_chain G f n c y -> up_chain G f (S n) x y.
+
+(* ====================================================================== branch labels after the load *)
+(* the revisions the upward loop of _add_branches labels when it starts at p: p and its single down revisions, as long
+   as the revision is neither a real branch point (more than one child counting depends_on) nor a merge point *)
+Fixpoint upchain (G:list srev) (fuel:nat) (p:str) : list str :=
+  match fuel with
+  | O => []
+  | S f => match find_rev G p with
+           | None => []
+           | Some r => if (1 <? length (all_nextrev G p)) || (1 <? length (s_down r)) then []
+                       else p :: match s_down r with d :: _ => upchain G f d | [] => [] end
+           end
+  end.
+(* which labels a revision carries once the labelled revisions of `todo` (each with the last descendant its iteration
+   yielded) have been handled in that order, starting from `cur`: a revision gets the labels the handled revision R
+   carries AT THAT MOMENT if it is R or a down_revision-descendant of R, or lies on the upward chain from that last
+   descendant *)
+Fixpoint carries_from (G:list srev) (cur:str -> str -> Prop) (todo:list (str*str)) : str -> str -> Prop :=
+  match todo with
+  | [] => cur
+  | (R, last) :: rest =>
+      carries_from G (fun x L => cur x L \/ (cur R L /\ In x (ids G) /\ (anc G x R \/ In x (upchain G (S (length G)) last)))) rest
+  end.
+Definition orig_label (G:list srev) (x L:str) : Prop := exists r, find_rev G x = Some r /\ In L (s_labels r).
+Definition carries (G:list srev) (oracle:list (str*str)) : str -> str -> Prop := carries_from G (orig_label G) oracle.
